@@ -4,10 +4,14 @@
     state" together with acceptance of the wake-up bits: the model predicts, for every
     environment action, whether the router task is woken, and every implementation trace must
     agree (the channel's waker is armed only by a Pending answer and consumed by a send or
-    close).  The first half (bounded work per poll) is a predicate on implementation traces
-    (obs_c09_bounded_ok / obs_rr_c09_bounded_ok) plus the harness's spin detector. *)
+    close).  The first half (bounded work per poll) is proved for both routers as a potential
+    argument over the model's control points: peer calls inside one poll are bounded by the data
+    handed over in it, and the internal moves between two peer calls always terminate
+    (P_PubSubWork.v, P_ReqRepWork.v); the predicates obs_c09_bounded_ok / obs_rr_c09_bounded_ok
+    and the harness's spin detector check the same on implementation traces. *)
 Require Import Selium.Base Selium.PubSub Selium.PubSubSpec Selium.P_PubSub Selium.P_PubSubPark.
 Require Import Selium.ReqRep Selium.ReqRepSpec Selium.P_ReqRep Selium.P_ReqRepOrder.
+Require Import Selium.P_PubSubWork Selium.P_ReqRepWork.
 Open Scope N_scope.
 
 Theorem c09_pubsub_no_sleep_on_undone_work : forall tr0 s0 seg s1 r,
@@ -51,3 +55,50 @@ Theorem c09_reqrep_parks_only_when_drained : forall tr s e s',
   b_rep s' = None /\ b_err s' = None /\ (b_req s' = None \/ server s' = None).
 Proof. exact rr_parks_only_when_drained. Qed.
 Print Assumptions c09_reqrep_parks_only_when_drained.
+
+(** "performs work bounded by the data currently available and then yields", pub/sub: inside one
+    poll (from [EBegin], before the poll returns) the router calls its peers at most
+    [(data + queued + 1) * cap] times: [data] = calls that handed it an item or an invalid frame,
+    [queued] = registrations waiting in the channel, [cap = 4 * subscribers + publishers +
+    5 * queued + 1] when the poll starts; from ANY state between two polls, with any mix of
+    publishers and subscribers (including none) *)
+Theorem c09_pubsub_work_bounded : forall s0 seg s1,
+  ctl s0 = PIdle -> forallb peer_call seg = true -> run s0 (EBegin :: seg) = Some s1 ->
+  (List.length seg <= (data_calls seg + nQ s0 + 1) * cap s0)%nat.
+Proof. exact ps_poll_work_bounded. Qed.
+Print Assumptions c09_pubsub_work_bounded.
+
+(** the same for the request/reply router ([data] also counts the end of a stream; [cap = 6 *
+    requestor sinks + 2 * requestor streams + 8 * queued + 19]); with no replier bound, or no
+    requestor stream, the loop still leaves: this is what the [server_pending] / [stream_pending]
+    flags must guarantee *)
+Theorem c09_reqrep_work_bounded : forall s0 seg s1,
+  rctl s0 = RIdle -> forallb rpeer_call seg = true -> rrun s0 (VBegin :: seg) = Some s1 ->
+  (List.length seg <= (rdata_calls seg + rQ s0 + 1) * rcap s0)%nat.
+Proof. exact rr_poll_work_bounded. Qed.
+Print Assumptions c09_reqrep_work_bounded.
+
+(** "never loops indefinitely inside one step": between two peer calls the loop makes finitely many
+    moves, from every state (the internal moves of the model always reach a peer call or a return
+    within the fuel [settled] grants; no trace is ever rejected for lack of fuel) *)
+Theorem c09_pubsub_never_spins : forall s, exists s', settled s = Some s'.
+Proof. exact ps_settled_total. Qed.
+Print Assumptions c09_pubsub_never_spins.
+
+Theorem c09_reqrep_never_spins : forall s, exists s', rsettled s = Some s'.
+Proof. exact rr_settled_total. Qed.
+Print Assumptions c09_reqrep_never_spins.
+
+(** the bounds are not vacuous: a poll of a router with two subscribers and a publisher that hands
+    over two items makes 11 peer calls, bound (2 + 0 + 1) * 10 *)
+Example c09_work_example :
+  exists s0 s1 seg,
+    run init [EBegin; EEnd false; EQueue (QSink 0) true; EQueue (QSink 1) false; EQueue (QStream 0) false;
+              EBegin; EStream 0 SPending; ESinkFlush 0 ROk; ESinkFlush 1 ROk; EEnd false] = Some s0
+    /\ ctl s0 = PIdle
+    /\ seg = [EStream 0 (SItem 7); ESinkReady 0 ROk; ESinkReady 1 ROk; ESinkSend 0 7 true; ESinkSend 1 7 true;
+              EStream 0 (SItem 8); ESinkReady 0 ROk; ESinkReady 1 ROk; ESinkSend 0 8 true; ESinkSend 1 8 true;
+              EStream 0 SPending]
+    /\ run s0 (EBegin :: seg) = Some s1
+    /\ (data_calls seg = 2 /\ nQ s0 = 0 /\ cap s0 = 10)%nat.
+Proof. do 3 eexists. split; [vm_compute; reflexivity|]. vm_compute. repeat split; reflexivity. Qed.
